@@ -499,7 +499,8 @@ class QAdaptiveActivation(Layer, PrunableLayer):
         "ema_decay": np.array(self.ema_decay),
         "per_channel": self.per_channel,
         "po2_rounding": self.po2_rounding,
-        "relu_neg_slope": self.relu_neg_slope
+        "relu_neg_slope": self.relu_neg_slope,
+        "relu_upper_bound": self.relu_upper_bound
     }
     base_config = super(QAdaptiveActivation, self).get_config()
     return dict(list(base_config.items()) + list(config.items()))
